@@ -166,6 +166,10 @@ fn enum_type<'a>(input: &mut &'a [u8]) -> ModalResult<Type<'a>, InputError<&'a [
 /// Parse an inline type (struct or enum).
 /// Determines if it's a struct by looking for ':' character.
 fn inline_type<'a>(input: &mut &'a [u8]) -> ModalResult<Type<'a>, InputError<&'a [u8]>> {
+    // An inline struct or enum starts with an opening parenthesis.
+    if !input.starts_with(b"(") {
+        return Err(ErrMode::Backtrack(ParserError::from_input(input)));
+    }
     // Look ahead to see if this contains a colon (indicating struct)
     if let Some(pos) = input.iter().position(|&b| b == b')') {
         let content = &input[1..pos]; // Skip opening paren
@@ -179,7 +183,6 @@ fn inline_type<'a>(input: &mut &'a [u8]) -> ModalResult<Type<'a>, InputError<&'a
     }
 }
 
-/// Parse an element type (primitive, custom, or inline).
 fn element_type<'a>(input: &mut &'a [u8]) -> ModalResult<Type<'a>, InputError<&'a [u8]>> {
     alt((primitive_type, type_name.map(Type::Custom), inline_type)).parse_next(input)
 }
